@@ -288,6 +288,7 @@ def analyse_job(job):
     # C03 also evaluates closed forms that contain float compares with MXCSR.DAZ set
     lanecheck.DAZ_MODE[0] = (prop == "C03") or vt.is_int      # (integer operations likewise: agent9_C02)
     lanecheck.BDD_NODES[0] = 250000 if job.get("tier", "quick") == "quick" else 1500000
+    lanecheck.GUARD_FCMP[0] = job.get("tier", "quick") == "quick"
     insts = ops.FAMILIES[job["fam"]](vt, _C)
     if prop:
         insts = [i for i in insts if not hasattr(i, "judges") or prop in i.judges]
